@@ -4,11 +4,15 @@ Model: Hpv/GraphModel.lean.  The theorems below are proved for the default facto
 CsrIndexedOntologyGraph, the one every loader uses) through the WHOLE pipeline: edge de-duplication, root finding,
 `np.unique`, bisect lookups, the cached adjacency scan, per-row assembly, CSR slicing, the worklist traversal and
 the mapping back to labels.  For the two matrix-backed factories the same statements are proved for the query layer
-(`matrix_*` below) under the hypothesis that the adjacency matrix represents the edge list (`Represents`); that the
-builder-based factory establishes the hypothesis is C17's refinement theorem, the row assembly of the incremental
-factory is tied by the correspondence run only (see DESIGN.md, `_partial`).
+(`Represents.direct`, `Represents.closure`) under the hypothesis that the adjacency matrix represents the edge list
+(`Represents`).  For the builder-based factory (CsrGraphFactory) the hypothesis is DISCHARGED here
+(`builder_factory_exact`, via C17's refinement theorem `runOps_spec` and `colIndicesOfVal_spec`), so its statements are
+end-to-end too; likewise for the incremental factory (IncrementalCsrGraphFactory: `incremental_factory_exact`, through
+`_partition_edges`, `_preprocess_edges`, the per-row sort, the index lookups and the CSR assembly).
 -/
 import Hpv.GraphModelProofs
+import Hpv.BuilderFactoryProofs
+import Hpv.IncrementalFactoryProofs
 
 namespace Hpv.Props.C01
 open Hpv.Graph Hpv.Csr Hpv.Indexed Hpv.GM
@@ -123,6 +127,58 @@ theorem source_once (h : BuiltIx o owl E root E' g) (hacyc : ∀ x, ¬ Relation.
     rw [hres] at h1; injection h1 with h1; subst h1
     exact hacyc v (Relation.TransGen.single ((h3 v).mp hin))
 
+/-- Acyclicity rules out self-loops and two-cycles. -/
+theorem acyclic_simple (hacyc : ∀ x, ¬ Relation.TransGen (IsA E') x x) :
+    (∀ e ∈ E', e.1 ≠ e.2) ∧ (∀ a b, (a, b) ∈ E' → (b, a) ∉ E') := by
+  constructor
+  · intro e he heq
+    have : IsA E' e.1 e.1 := by
+      show (e.1, e.1) ∈ E'
+      have : (e.1, e.1) = e := by rw [Prod.ext_iff]; exact ⟨rfl, heq⟩
+      rw [this]; exact he
+    exact hacyc e.1 (Relation.TransGen.single this)
+  · intro a b hab hba
+    exact hacyc a (Relation.TransGen.tail (Relation.TransGen.single hab) hba)
+
+/-- **Builder-based factory, end to end** (edge list → `CsrMatrixBuilder` assignments → CSR matrix → `col_indices_of_val`
+→ worklist → labels): on every acyclic rooted edge list the factory succeeds and all four queries of the resulting
+graph return exactly the direct relatives / the transitive closure, each node once. -/
+theorem builder_factory_exact (hs : o.Strict) (hroot : findRoot owl (dedup E) = .ok (root, E'))
+    (hacyc : ∀ x, ¬ Relation.TransGen (IsA E') x x) :
+    ∃ g, buildBuilder o owl E = .ok g ∧ g.root = root ∧ ∀ v ∈ g.nodes,
+      (∃ res, g.query o .parents (some v) false = .ok res ∧ res.Nodup ∧ ∀ x, x ∈ res ↔ IsA E' v x) ∧
+      (∃ res, g.query o .children (some v) false = .ok res ∧ res.Nodup ∧ ∀ x, x ∈ res ↔ IsA E' x v) ∧
+      (∃ res, g.query o .ancestors (some v) false = .ok res ∧ res.Nodup ∧
+        ∀ x, x ∈ res ↔ Relation.TransGen (IsA E') v x) ∧
+      (∃ res, g.query o .descendants (some v) false = .ok res ∧ res.Nodup ∧
+        ∀ x, x ∈ res ↔ Relation.TransGen (fun a b => IsA E' b a) v x) := by
+  obtain ⟨hloop, h2⟩ := acyclic_simple hacyc
+  obtain ⟨g, hg, hr, _, hrep⟩ := builder_represents hs hroot hloop h2
+  refine ⟨g, hg, hr, fun v hv => ?_⟩
+  obtain ⟨hp, hc⟩ := hrep.direct hs v hv
+  obtain ⟨ha, hd⟩ := hrep.closure hs v hv
+  exact ⟨hp, hc, ha, hd⟩
+
+/-- **Incremental factory, end to end** (edge list → per-node adjacency with the last-subject cache →
+`_preprocess_edges` → per-row `sorted` → index lookups → CSR arrays → `col_indices_of_val` → worklist → labels): on
+every acyclic rooted edge list the factory succeeds and all four queries return exactly the direct relatives / the
+transitive closure, each node once. -/
+theorem incremental_factory_exact (hs : o.Strict) (hroot : findRoot owl (dedup E) = .ok (root, E'))
+    (hacyc : ∀ x, ¬ Relation.TransGen (IsA E') x x) :
+    ∃ g, buildIncremental o owl E = .ok g ∧ g.root = root ∧ ∀ v ∈ g.nodes,
+      (∃ res, g.query o .parents (some v) false = .ok res ∧ res.Nodup ∧ ∀ x, x ∈ res ↔ IsA E' v x) ∧
+      (∃ res, g.query o .children (some v) false = .ok res ∧ res.Nodup ∧ ∀ x, x ∈ res ↔ IsA E' x v) ∧
+      (∃ res, g.query o .ancestors (some v) false = .ok res ∧ res.Nodup ∧
+        ∀ x, x ∈ res ↔ Relation.TransGen (IsA E') v x) ∧
+      (∃ res, g.query o .descendants (some v) false = .ok res ∧ res.Nodup ∧
+        ∀ x, x ∈ res ↔ Relation.TransGen (fun a b => IsA E' b a) v x) := by
+  obtain ⟨hloop, h2⟩ := acyclic_simple hacyc
+  obtain ⟨g, hg, hr, _, hrep⟩ := incremental_represents hs hroot hloop h2
+  refine ⟨g, hg, hr, fun v hv => ?_⟩
+  obtain ⟨hp, hc⟩ := hrep.direct hs v hv
+  obtain ⟨ha, hd⟩ := hrep.closure hs v hv
+  exact ⟨hp, hc, ha, hd⟩
+
 end Hpv.Props.C01
 
 /-! ### non-vacuity: the hypotheses are met by concrete graphs (keys `Nat` under `<`, `owl:Thing` = 0) -/
@@ -168,5 +224,15 @@ example : BuiltIx natOrd 0 forest 0 [(5, 4), (7, 6), (4, 0), (6, 0)] forestGraph
   hg := by rfl
 
 example : forestGraph.query natOrd .descendants (some 0) false = .ok [6, 7, 4, 5] := by rfl
+
+/-- the builder factory on the diamond: the hypotheses of `builder_factory_exact` hold and the answers are as stated -/
+example : findRoot 0 (dedup diamond) = .ok (9, [(3, 9), (2, 9), (1, 3), (1, 2)]) := by rfl
+example : (match buildBuilder natOrd 0 diamond with
+    | .ok g => g.query natOrd .ancestors (some 1) false
+    | .error e => .error e) = .ok [2, 3, 9] := by rfl
+
+example : (match buildIncremental natOrd 0 diamond with
+    | .ok g => g.query natOrd .descendants (some 9) false
+    | .error e => .error e) = .ok [2, 3, 1] := by rfl
 
 end Hpv.Props.C01.Example
